@@ -73,7 +73,7 @@ func genRewrite(rng *mrand.Rand, n int, tier string, w *bufio.Writer) {
 			lines := []string{"Content-Type: " + pick(rng, []string{"text/html", "application/octet-stream", "text/plain; charset=utf-8"})}
 			for chance(rng, 70) && len(lines) < 5 {
 				k := pick(rng, []string{"X-App", "Connection", "Keep-Alive", "Set-Cookie", "Cache-Control", "X-Drop-Me", "Content-Encoding", "Location", "Proxy-Authenticate"})
-				v := pick(rng, []string{"text/html", "1", "a=b; Path=/", "no-cache", "gzip", "/elsewhere", "timeout=5"})
+				v := pick(rng, []string{"text/html", "1", "a=b; Path=/", "no-cache", "gzip", "/elsewhere", "timeout=5", "/app/login?next=%2Fapp", "/", "//other.test/x", "https://p.test/app"})
 				if k == "Connection" {
 					v = "x-drop-me" // "close" is consumed by the target's own server
 				}
@@ -87,7 +87,7 @@ func genRewrite(rng *mrand.Rand, n int, tier string, w *bufio.Writer) {
 			if st == 204 {
 				body = nil
 			}
-			fmt.Fprintf(w, "resp status=%d headers=%s body=%s\n", st, encList(lines), hexB(body))
+			fmt.Fprintf(w, "resp status=%d headers=%s body=%s via=%s\n", st, encList(lines), hexB(body), pick(rng, []string{"plain", "strip", "nostrip", "strip"}))
 		}
 	}
 }
@@ -252,7 +252,16 @@ func runRewrite(t *testing.T, fx *fixtures, c verifCase, w *bufio.Writer) {
 			st, _ := strconv.Atoi(kv["status"])
 			body := unhexB(kv["body"])
 			lines := decList(kv["headers"])
-			mt := world.net.get("plain-a:80")
+			// the response comes back through the plain service, or through the service mounted on /app with or
+			// without prefix stripping: the target's headers (Location included) reach the client as sent
+			tname, url := "plain-a:80", "http://p.test/r"
+			switch kv["via"] {
+			case "strip":
+				tname, url = "strip-a:80", "http://s.test/app/r"
+			case "nostrip":
+				tname, url = "nostrip-a:80", "http://n.test/app/r"
+			}
+			mt := world.net.get(tname)
 			mt.mu.Lock()
 			mt.handler = func(rw http.ResponseWriter, r *http.Request) {
 				for _, l := range lines {
@@ -264,7 +273,7 @@ func runRewrite(t *testing.T, fx *fixtures, c verifCase, w *bufio.Writer) {
 				rw.Write(body)
 			}
 			mt.mu.Unlock()
-			req := httptest.NewRequest("GET", "http://p.test/r", nil)
+			req := httptest.NewRequest("GET", url, nil)
 			req.Header.Set("X-Request-ID", id)
 			rec := httptest.NewRecorder()
 			handler.ServeHTTP(rec, req)
